@@ -694,6 +694,9 @@ func c19Gen(rng *verifsim.RNG, idx int, tier string) any {
 	if rng.Bool(0.45) {
 		return c19Concurrent(rng, p)
 	}
+	if rng.Bool(0.25) {
+		return c19SlowAndFast(rng, p)
+	}
 	p.Class = "random"
 	ifs := []string{"eth0", "eth1", "wan0"}
 	nsub := 0
@@ -735,6 +738,43 @@ func c19Gen(rng *verifsim.RNG, idx int, tier string) any {
 		default:
 			p.Ops = append(p.Ops, WOp{Kind: "watch2"})
 		}
+	}
+	return p
+}
+
+// c19SlowAndFast: subscribers that never drain next to subscribers that drain
+// after every batch, several of them under the very same interface and mask: a
+// full buffer is that subscriber's loss alone.
+func c19SlowAndFast(rng *verifsim.RNG, p *WPlan) *WPlan {
+	p.Class = "slow-and-fast"
+	ifs := []string{"eth0", "eth1"}
+	masks := []uint{uint(LinkAny), uint(LinkDown), uint(LinkUp | LinkDown), uint(rng.Range(1, nMasks))}
+	var fast []int
+	nsub := rng.Range(2, 6)
+	for i := 0; i < nsub; i++ {
+		p.Ops = append(p.Ops, WOp{Kind: "sub", If: ifs[rng.Intn(2)], Mask: masks[rng.Intn(len(masks))]})
+		if rng.Bool(0.5) {
+			fast = append(fast, i)
+		}
+	}
+	for i, n := 0, rng.Range(8, 30); i < n; i++ {
+		var msgs []WMsg
+		for j, k := 0, rng.Range(1, 3); j < k; j++ {
+			msgs = append(msgs, WMsg{If: ifs[rng.Intn(2)], Oper: int(operOf[allChanges[rng.Intn(7)]])})
+		}
+		p.Ops = append(p.Ops, WOp{Kind: "emit", Msgs: msgs})
+		for _, f := range fast {
+			p.Ops = append(p.Ops, WOp{Kind: "drain", Sub: f, K: 9})
+		}
+		if i == n/2 && rng.Bool(0.5) {
+			// a late subscriber under a mask somebody slow already holds
+			p.Ops = append(p.Ops, WOp{Kind: "sub", If: ifs[rng.Intn(2)], Mask: masks[rng.Intn(len(masks))]})
+			fast = append(fast, nsub)
+			nsub++
+		}
+	}
+	if rng.Bool(0.5) {
+		p.Ops = append(p.Ops, WOp{Kind: "end", End: []string{"nil", "error", "cancel"}[rng.Intn(3)]})
 	}
 	return p
 }
